@@ -30,6 +30,14 @@ CLAIMED = {
          "Generated responses whose transport script ends in a pause at a generated point; send() and the reads needed to obtain the already-entitled bytes must not reach the pause and must each return >= 1 byte; the end of a completely received frame must be reported without waiting.",
          "Blocking is modelled by the scripted transport's Pause event (answered with TimedOut and recorded); real socket timing is not involved.",
          "DESIGN.md §4 C19"),
+ "C06": ("property-based testing (proptest) with independent hand-written deflate/gzip encoders; round-trip oracle plus truncation / trailer-corruption fault injection",
+         "Generated-input exploration: payloads compressed by flate2 at levels 0..9 with flush points and by the harness's own stored-block / fixed-Huffman encoders and gzip framer (optional header fields), declared via Content-Encoding or Transfer-Encoding in any letter case or list position, under every framing, segmentation and read plan; undamaged streams must decode to the payload, unknown codings pass through byte-for-byte, every truncation offset of small streams and every bit of the gzip trailer must produce an error after a prefix of the payload.",
+         "'deflate' is raw deflate as the code defines it; zlib-wrapped deflate, stacked codings and multi-member gzip are outside the generated domain; dynamic-Huffman blocks come only from flate2.",
+         "DESIGN.md §4 C06"),
+ "C18": ("property-based testing (proptest): charset-selection model + whole-body reference decoding, metamorphic over segmentations and reader buffer sizes",
+         "Generated bodies in every re-exported charset (valid, truncated, spliced, scrambled, random, lone surrogates, BOM-prefixed) x Content-Type forms over the harness's own WHATWG label table x default-charset settings x text / text_with / text_utf8 / text_reader drained with buffers from 1 byte to 100 000 bytes; the result must equal whole-body decoding with the model's charset, be identical for every segmentation, and never be an error.",
+         "Whole-body decoding by encoding_rs is the reference the statement itself names; BOM-prefixed bodies are checked for segmentation independence only.",
+         "DESIGN.md §4 C18"),
 }
 hooks_commits = subprocess.run(["git","-C","/repo","log","--format=%h %s"],capture_output=True,text=True).stdout.splitlines()
 hook_commits = [l.split()[0] for l in hooks_commits if l.split(' ',1)[1].startswith('verif-hooks')]
